@@ -297,6 +297,10 @@ impl Model {
         // clear decision below and the `processed` decision must agree on it
         let reader_stopped = self.reader_control.as_ref().map(ReaderControl::is_done).unwrap_or(true);
 
+        #[cfg(feature = "verif")]
+        crate::verif::sched::log(format!("hb.rs {}", reader_stopped));
+        #[cfg(feature = "verif")]
+        crate::verif::sched::point("hb.after_rs");
         // save the processed items
         let matcher_stopped = self
             .matcher_control
@@ -309,8 +313,6 @@ impl Model {
         #[cfg(feature = "verif")]
         crate::verif::sched::point(if matcher_stopped { "hb.ms_true" } else { "hb.ms_false" });
         if matcher_stopped {
-            #[cfg(feature = "verif")]
-            crate::verif::sched::log(format!("hb.rs1 {}", reader_stopped));
             #[cfg(feature = "verif")]
             crate::verif::sched::point("hb.after_rs1");
             let ctrl = self.matcher_control.take().unwrap();
@@ -340,7 +342,7 @@ impl Model {
         let items_consumed = self.item_pool.num_not_taken() == 0;
         let processed = reader_stopped && items_consumed;
         #[cfg(feature = "verif")]
-        crate::verif::sched::log(format!("hb.ic {} hb.rs2 {}", items_consumed, reader_stopped));
+        crate::verif::sched::log(format!("hb.ic {}", items_consumed));
 
         // run matcher if matcher had been stopped and reader had new items.
         if !processed && self.matcher_control.is_none() {
